@@ -1,4 +1,7 @@
 """C08 — group casts succeed exactly when the requested traits are present."""
+import re
+
+from common import Inconclusive
 from props import glueprops
 from gluerun import SIGMAP
 
@@ -6,7 +9,17 @@ LEVEL = "exploration"
 
 
 def run(chk, replay=None):
-    h = glueprops.hist_steps(chk, SIGMAP["C08"])
+    try:
+        h = glueprops.hist_steps(chk, SIGMAP["C08"])
+    except Inconclusive as e:
+        # every generated cast site requests a subset of the group's optional traits, which the cast macros document as castable: when the only thing
+        # the compiler rejects is the method the cast macro expands to, the cast was refused at compile time although the traits are there
+        m = re.search(r"no method named `((?:check|cast|as_ref|as_mut|into)_impl_\w+)` found", str(e))
+        if m and chk.pid == "C08":
+            chk.violation("C08:cast-site-rejected-by-compiler", "a cast to traits the group has does not compile: the cast macro expands to `%s`, which the group does not define" % m.group(1), dict(method=m.group(1)))
+            chk.coverage.update(evaluations=0, distinct_nontrivial=0, rule="build of the cast programs failed in the cast macros themselves")
+            return
+        raise
     st = h["model_stats"]
     chk.coverage["evaluations"] = st["casts_ok"] + st["casts_fail"]
     chk.coverage["distinct_nontrivial"] = h["exhaustive_cast_programs"]
